@@ -231,6 +231,20 @@ def run_parsers(R, tonic, comp, enabled, tag=''):
         R.saw(b)
         it = [t for bb, t in b.calls(name='into_iter')]
         R.check(any(mentions_field(b.origin(t['args'][0]), 'inner') for t in it), 'C05.R3', 'iterates-inner' + tag, site(b), 'iterates self.inner')
+        # pop() really removes: the slot it empties (Option::take) is a slot of self.inner reached through a mutable iterator, not a
+        # copy of the array (the array is Copy: `.into_iter()` on it would empty a temporary and leave the encoding enabled)
+        pp = tonic.find('compression::EnabledCompressionEncodings::pop')
+        if pp:
+            pp = pp[0]
+            R.saw(pp)
+            tk = [(bb_, t_) for bb_, t_ in pp.calls(name='take') if 'Option' in (t_.get('fn') or '')]
+            okp = False
+            for bb_, t_ in tk:
+                src_ = pp.origin(t_['args'][0])
+                okp = mentions_field(src_, 'inner') and arg_root(strip_refs(find_terms(src_, lambda y: isinstance(y, tuple) and y and y[0] == 'field' and y[2] == 'inner')[0])) == 1 \
+                    and bool(find_terms(src_, lambda y: is_call(y) and y[3] in ('iter_mut', 'get_mut', 'index_mut', 'last_mut', 'first_mut'))) \
+                    and not find_terms(src_, lambda y: is_call(y) and y[3] in ('into_iter', 'clone', 'iter') and 'IntoIterator' in y[1] + ' ' + str(y[4].get('trait') or ''))
+            R.check(len(tk) == 1 and okp, 'C05.R3', 'pop-removes-in-place' + tag, site(pp), 'pop() takes the encoding out of a slot of self.inner (iter_mut): %r' % okp)
         R.check(bool(b.calls(name='flatten')), 'C05.R3', 'flatten' + tag, site(b), 'skips empty slots (flatten)')
         puts = b.calls(name='put_slice')
         srcs = [show(b.origin(t['args'][1])) for bb, t in puts]
